@@ -92,9 +92,14 @@ func execCodec(op string, a []sx) sx {
 			return T("clobber")
 		}
 		if err != nil {
+			r.ExtractResourceBank().Close()
 			return errSx
 		}
-		return T("ok", dumpVal(dst.v), I(int64(r.Len())))
+		// the value is dumped before its bank goes back to the pool: later cases decode into
+		// recycled banks (big / small / big allocation histories arise from the case mix)
+		out := T("ok", dumpVal(dst.v), I(int64(r.Len())))
+		r.ExtractResourceBank().Close()
+		return out
 	case "cskip":
 		r := avro.NewReadBuf(a[2].bytes())
 		if err := b.codec.Skip(r); err != nil {
@@ -120,9 +125,12 @@ func execCodec(op string, a []sx) sx {
 			return T("clobber")
 		}
 		if err != nil {
+			r.ExtractResourceBank().Close()
 			return T("ok", H(bs), errSx, I(int64(r.Len())))
 		}
-		return T("ok", H(bs), dumpVal(dst.v), I(int64(r.Len())))
+		out := T("ok", H(bs), dumpVal(dst.v), I(int64(r.Len())))
+		r.ExtractResourceBank().Close()
+		return out
 	}
 	panic("harness: unknown codec op " + op)
 }
